@@ -21,6 +21,14 @@ theorem fi_epsilon_gen {s : St ι} (h : ReachMed genTun s) :
   fi_epsilon genTun h (by decide) (by decide)
 
 example : ∃ s : St Nat, ReachMed genTun s ∧ s.total = 5 :=
-  ⟨_, ReachMed.upd 1 5 0 (ReachMed.new 3 3 (by decide)) (by intro h; exact absurd h (by decide)), by decide⟩
+  ⟨_, ReachP.upd 1 5 0 (ReachP.new 3 3 (by decide)) (by intro h; exact absurd h (by decide)), by decide⟩
+
+/-- load invariant for the constants of the current headers (side condition `capacity(LG_MIN_MAP_SIZE) ≥ 1` by `decide`) -/
+theorem fi_capacity_gen {b : Bool} {s : St ι} (h : ReachP genTun b (AmtDel genTun) s) :
+    numActive s ≤ capacity genTun s.lgCur :=
+  (fi_capacity genTun (by decide) h).1
+
+example : ∃ s : St Nat, ReachP genTun false (AmtDel genTun) s ∧ s.total = 5 :=
+  ⟨_, ReachP.upd 1 5 0 (ReachP.new 3 3 (by decide)) (by intro h; exact absurd h (by decide)), by decide⟩
 
 end DS.Fi
